@@ -208,7 +208,7 @@ def pcacov(C, is_inverse=False, eps=1e-5):
     return U, l
 
 
-def ipca(B, U_a, l_a, n_a, m_a=None, f=1.0, eps=1e-10):
+def ipca(B, U_a, l_a, n_a, m_a=None, f=1.0, eps=1e-10, centred=None):
     r"""
     Perform Incremental PCA on the eigenvectors ``U_a``, eigenvalues ``l_a`` and
     mean vector ``m_a`` (if present) given a new data matrix ``B``.
@@ -236,6 +236,10 @@ def ipca(B, U_a, l_a, n_a, m_a=None, f=1.0, eps=1e-10):
         Tolerance value for positive eigenvalue. Those eigenvalues smaller
         than the specified eps value, together with their corresponding
         eigenvectors, will be automatically discarded.
+    centred : `bool`, optional
+        States explicitly whether the model being updated is centred. If
+        ``None`` this is inferred from ``m_a`` as described above (which cannot
+        tell a centred model whose mean happens to be exactly 0).
 
     Returns
     -------
@@ -263,7 +267,9 @@ def ipca(B, U_a, l_a, n_a, m_a=None, f=1.0, eps=1e-10):
     # total number of samples
     n = n_a + n_b
 
-    if m_a is not None and not np.all(m_a == 0):
+    if centred is None:
+        centred = m_a is not None and not np.all(m_a == 0)
+    if centred and m_a is not None:
         # centred ipca; compute mean of new data
         m_b = np.mean(B, axis=0)
         # compute new mean
